@@ -922,4 +922,91 @@ theorem handlerServe_ne_allowed (tr : Transport) (cfg : Cfg) (acc : Accept) (rc 
     · obtain ⟨e, he⟩ := Option.isSome_iff_exists.mp hf
       exact serve_ne_allowed_of_error tr cfg acc ctx e he
 
+/-! ### wrapping a failure; endpoints (round 5) -/
+
+theorem has_wrapKind (k : Kind) (e : Err) (a : Action) :
+    (wrapKind k e).has a = (k.action == a || e.has a) := by
+  simp [wrapKind, Err.has, Err.leaves, Err.leavesAny, Leaf.action]
+
+/-- one error of kind `k` in front of a cause: the class which comes first in the precedence order -/
+theorem action_wrapKind (k : Kind) (e : Err) :
+    (wrapKind k e).action = if k.action.rank ≤ e.action.rank then k.action else e.action := by
+  rw [action_unfold (wrapKind k e), action_unfold e]
+  simp only [has_wrapKind]
+  cases k <;> cases e.has (.respond .authn) <;> cases e.has (.respond .authz) <;> cases e.has (.respond .comm) <;>
+    cases e.has (.respond .precond) <;> cases e.has (.respond .noRule) <;> cases e.has .redirect <;> rfl
+
+theorem asRedirect_wrapKind (k : Kind) (e : Err) : (wrapKind k e).asRedirect = e.asRedirect := by
+  simp only [wrapKind, Err.asRedirect, Err.asRedirectAny]
+  cases e.asRedirect <;> rfl
+
+theorem rank_le_internal (a : Action) : a.rank ≤ Action.rank (.respond .internal) := by
+  rcases action_cases a with rfl | rfl | rfl | rfl | rfl | rfl | rfl <;> decide
+
+theorem rank_internal_le {a : Action} (h : Action.rank (.respond .internal) ≤ a.rank) : a = .respond .internal := by
+  rcases action_cases a with rfl | rfl | rfl | rfl | rfl | rfl | rfl <;> first | rfl | (revert h; decide)
+
+/-- an error of the internal kind in front of a cause never changes the class -/
+theorem action_wrapInternal (e : Err) : (wrapKind .internal e).action = e.action := by
+  rw [action_wrapKind]
+  split
+  · rename_i h; exact (rank_internal_le h).symm
+  · rfl
+
+theorem action_endpointWrap (e : Err) : (endpointWrap e).action = e.action := by
+  unfold endpointWrap; rw [action_wrapInternal, action_wrapInternal]
+
+theorem asRedirect_endpointWrap (e : Err) : (endpointWrap e).asRedirect = e.asRedirect := by
+  unfold endpointWrap; rw [asRedirect_wrapKind, asRedirect_wrapKind]
+
+/-- the whole answer of a translator is a function of the class and of the first redirect inside the value -/
+theorem respond_congr (tr : Transport) (cfg : Cfg) (acc : Accept) {e e' : Err} (ch : List String)
+    (ha : e.action = e'.action) (hr : e.asRedirect = e'.asRedirect) :
+    tr.translator.respond cfg acc ⟨e, ch⟩ = tr.translator.respond cfg acc ⟨e', ch⟩ := by
+  unfold Translator.respond
+  simp only [tr_classify, ha, hr, challengeHeaders]
+
+theorem action_of_unclassified {e : Err} (h : e.unclassified = true) : e.action = .respond .internal := by
+  have hall : ∀ l ∈ e.leaves, l.action = .respond .internal := by
+    intro l hl
+    have := List.all_eq_true.mp h l hl
+    exact beq_iff_eq.mp this
+  rw [single_class e _ hall]; split <;> rfl
+
+/-! ### the response writer (round 5) -/
+
+theorem writeHeaders_snd (lvl : LogLevel) (s : Bool × Writer) (cs : List Int) :
+    (writeHeaders lvl s cs).2 = cs.foldl Writer.writeHeader s.2 := by
+  induction cs generalizing s with
+  | nil => rfl
+  | cons c cs ih =>
+    rw [writeHeaders, ih, List.foldl_cons]
+    congr 1
+    unfold dumpWriteHeader; split <;> rfl
+
+theorem foldl_informational (w : Writer) (hw : w.status = none) (infos : List Int)
+    (hi : ∀ i ∈ infos, isInformational i = true) :
+    infos.foldl Writer.writeHeader w = { informational := w.informational ++ infos, status := none } := by
+  induction infos generalizing w with
+  | nil => cases w; simp at hw; subst hw; simp
+  | cons i is ih =>
+    have h1 : w.writeHeader i = { w with informational := w.informational ++ [i] } := by
+      unfold Writer.writeHeader; rw [hw]; simp [hi i (List.mem_cons_self ..)]
+    have h2 := ih { w with informational := w.informational ++ [i] } hw
+      (fun j hj => hi j (List.mem_cons_of_mem _ hj))
+    rw [List.foldl_cons, h1, h2]
+    simp
+
+theorem writeHeader_final (w : Writer) (hw : w.status = none) (code : Int) (hc : isInformational code = false) :
+    w.writeHeader code = { w with status := some code } := by
+  unfold Writer.writeHeader; rw [hw]; simp [hc]
+
+theorem foldl_after_final (w : Writer) (c : Int) (hw : w.status = some c) (more : List Int) :
+    more.foldl Writer.writeHeader w = w := by
+  induction more with
+  | nil => rfl
+  | cons m ms ih =>
+    have : w.writeHeader m = w := by unfold Writer.writeHeader; rw [hw]
+    rw [List.foldl_cons, this, ih]
+
 end Heimdall.ErrMap
